@@ -79,6 +79,11 @@ theorem packs_complete (pend : List (Nat × Option Int)) (kind : PackKind) (v : 
         simp [e]
       rw [h1]; simp
 
+/-- C02.4d exactly once, as multisets: between them the packages of a pending list hold exactly the requested
+    orders, each as often as it was requested (whatever the market versions and the chunking) -/
+theorem packs_exactly_once (pend : List (Nat × Option Int)) (kind : PackKind) :
+    ((packsOf pend kind).flatMap (·.2)).Perm (pend.map (·.1)) := Packs.packs_perm pend kind
+
 /-! ### the transaction: nothing is left queued, accepted requests are queued once -/
 
 theorem execute_clears (w : World) (t : Txn) :
@@ -294,5 +299,33 @@ theorem force_skips_only_controls (w : World) (t : Txn) (oid : Nat) (red : Optio
 
 example : packsOf [(1, some 5), (2, none), (3, some 5)] .cancel = [(some 5, [1, 3]), (none, [2])] := by decide +kernel
 example : (chunks (List.range 130) 60).map List.length = [60, 60, 10] := by decide +kernel
+
+/-! ### C02.5 `Transaction.execute()` as a whole -/
+
+theorem step_queueIds (w : World) (t : Txn) (pend : List (Nat × Option Int)) (k : PackKind) :
+    Fl.queueIds (if pend.isEmpty then w else w.createPackages t pend k) = Fl.queueIds w ++ (packsOf pend k).flatMap (·.2) := by
+  split
+  · rename_i he
+    have : pend = [] := List.isEmpty_iff.mp he
+    subst this
+    simp [packsOf, groupByVersion]
+  · unfold createPackages
+    exact (Fl.packs_queue k t _ _ (packsOf pend k) w).1
+
+/-- `Transaction.execute()`: the handler queue grows by packages that hold, between them, exactly the requests
+    pending in the transaction - every accepted request once, nothing else - and what was queued before stays
+    in front, untouched -/
+theorem execute_queues_each_request_once (w : World) (t : Txn) :
+    ∃ N, Fl.queueIds (w.txnExecute t).1 = Fl.queueIds w ++ N ∧ N.Perm (Fl.txnIds t) := by
+  refine ⟨(packsOf t.pPlace .place).flatMap (·.2) ++ ((packsOf t.pCancel .cancel).flatMap (·.2) ++
+    ((packsOf t.pUpdate .update).flatMap (·.2) ++ (packsOf t.pReplace .replace).flatMap (·.2))), ?_, ?_⟩
+  · unfold txnExecute
+    simp only
+    rw [step_queueIds, step_queueIds, step_queueIds, step_queueIds]
+    simp [List.append_assoc]
+  · unfold Fl.txnIds
+    rw [List.map_append, List.map_append, List.map_append, List.append_assoc, List.append_assoc]
+    exact (packs_exactly_once t.pPlace .place).append ((packs_exactly_once t.pCancel .cancel).append
+      ((packs_exactly_once t.pUpdate .update).append (packs_exactly_once t.pReplace .replace)))
 
 end Flumine.C02
